@@ -43,8 +43,10 @@ func (w *Walker[T]) Next() (nextElement T) {
 	currentEntry := w.stack.Front()
 	w.stack.Remove(currentEntry)
 
-	//nolint:forcetypeassert // false positive, we know that the element is of type T
-	return currentEntry.Value.(T)
+	// the zero value of an interface type (a nil element that was pushed) does not pass a type assertion
+	nextElement, _ = currentEntry.Value.(T)
+
+	return nextElement
 }
 
 // Push adds a new element to the walk, which can consequently be retrieved by calling the Next method.
